@@ -408,3 +408,168 @@ pub fn c06(rng: &mut Rng, thorough: bool, idx: u64) -> Spec {
     spec.oracles = vec!["c06_shards".into(), "liveness".into()];
     spec
 }
+
+// ------------------------------------------------------------------------------------------
+// C05: roles
+// ------------------------------------------------------------------------------------------
+
+/// One statement of a known class (by construction). Returns (class, sql).
+fn classed_statement(rng: &mut Rng, tag: &str) -> (&'static str, String) {
+    match rng.below(40) {
+        0 => ("plain_read", format!("SELECT '{}'", tag)),
+        1 => ("plain_read", format!("SELECT '{}' FROM t WHERE x = {}", tag, rng.range(0, 9))),
+        2 => ("plain_read", format!("SELECT '{}' FROM a JOIN b ON a.id = b.a_id WHERE b.v > 2 ORDER BY 1 LIMIT 5", tag)),
+        3 => ("plain_read", format!("WITH c AS (SELECT 1 AS one) SELECT '{}' FROM c", tag)),
+        4 => ("plain_read", format!("SELECT '{}' UNION ALL SELECT 'x'", tag)),
+        5 => ("plain_read", format!("VALUES ('{}')", tag)),
+        6 => ("plain_read", format!("SELECT '{}' FROM (SELECT id FROM t WHERE id IN (SELECT id FROM u)) s", tag)),
+        7 => ("plain_read", format!("select count(*), '{}' from t group by 2 having count(*) > 0", tag)),
+        8 => ("write", format!("INSERT INTO t (v) VALUES ('{}')", tag)),
+        9 => ("write", format!("INSERT INTO t (v) SELECT '{}' FROM u", tag)),
+        10 => ("write", format!("UPDATE t SET v = '{}' WHERE id = {}", tag, rng.range(0, 9))),
+        11 => ("write", format!("DELETE FROM t WHERE v = '{}'", tag)),
+        12 => ("write", format!("INSERT INTO t (id, v) VALUES (1, '{}') ON CONFLICT (id) DO UPDATE SET v = excluded.v RETURNING id", tag)),
+        13 => ("write", format!("MERGE INTO t USING s ON t.id = s.id WHEN MATCHED THEN UPDATE SET v = '{}'", tag)),
+        14 => ("write", format!("TRUNCATE TABLE t /* {} */", tag)),
+        15 => ("ddl", format!("CREATE TABLE IF NOT EXISTS n (id int, v text DEFAULT '{}')", tag)),
+        16 => ("ddl", format!("DROP TABLE IF EXISTS n /* {} */", tag)),
+        17 => ("ddl", format!("ALTER TABLE t ADD COLUMN c int /* {} */", tag)),
+        18 => ("ddl", format!("CREATE INDEX i ON t (v) /* {} */", tag)),
+        19 => ("ddl", format!("CREATE VIEW vw AS SELECT '{}' AS v", tag)),
+        20 => ("utility", format!("EXPLAIN ANALYZE DELETE FROM t WHERE v = '{}'", tag)),
+        21 => ("utility", format!("LOCK TABLE t IN ACCESS EXCLUSIVE MODE /* {} */", tag)),
+        22 => ("utility", format!("CALL p('{}')", tag)),
+        23 => ("utility", format!("COMMENT ON TABLE t IS '{}'", tag)),
+        24 => ("utility", format!("GRANT SELECT ON t TO public /* {} */", tag)),
+        25 => ("utility", format!("ANALYZE t /* {} */", tag)),
+        26 => ("utility", format!("SET search_path TO '{}'", tag)),
+        27 => ("utility", format!("COPY t TO STDOUT /* {} */", tag)),
+        28 => ("dm_cte", format!("WITH d AS (DELETE FROM t WHERE v = '{}' RETURNING *) SELECT * FROM d", tag)),
+        29 => ("dm_cte", format!("WITH i AS (INSERT INTO t (v) VALUES ('{}') RETURNING id) SELECT id FROM i", tag)),
+        30 => ("dm_cte", format!("WITH u AS (UPDATE t SET v = '{}' RETURNING id) SELECT count(*) FROM u", tag)),
+        31 => ("lock", format!("SELECT '{}' FROM t WHERE id = 1 FOR UPDATE", tag)),
+        32 => ("lock", format!("SELECT '{}' FROM t FOR SHARE", tag)),
+        33 => ("lock", format!("SELECT '{}' FROM t FOR NO KEY UPDATE SKIP LOCKED", tag)),
+        34 => ("nested_lock", format!("SELECT '{}' FROM (SELECT id FROM t FOR UPDATE) s", tag)),
+        35 => ("select_into", format!("SELECT '{}' AS v INTO n FROM t", tag)),
+        36 => ("multi_with_write", format!("SELECT '{}'; INSERT INTO t (v) VALUES ('x')", tag)),
+        37 => ("multi_with_write", format!("UPDATE t SET v = 'y'; SELECT '{}'", tag)),
+        38 => ("multi_reads", format!("SELECT 1; SELECT '{}'", tag)),
+        _ => ("write", format!("DELETE FROM t USING u WHERE t.id = u.id AND u.v = '{}'", tag)),
+    }
+}
+
+/// C05: one shard with a primary and 1-2 replicas, read/write splitting on; clients send
+/// statements of every class in simple and extended protocol, explicit transactions, SET SERVER
+/// ROLE / SET PRIMARY READS in between; every fourth run takes all replicas or the primary away.
+pub fn c05(rng: &mut Rng, thorough: bool, idx: u64) -> Spec {
+    let replicas = rng.range(1, 2) as usize;
+    let nclients = rng.range(1, 3) as u32;
+    let mut cfg = sharded_pool("transaction", nclients + 1, 1, replicas);
+    cfg.set("connect_timeout", 1200);
+    cfg.set("healthcheck_timeout", 300);
+    cfg.set("ban_time", 1);
+    // read/write splitting needs the parser; a fifth of the runs have neither (explicit roles only)
+    cfg.pools[0].query_parser_enabled = rng.chance(0.8);
+    cfg.pools[0].rw_split = cfg.pools[0].query_parser_enabled;
+    cfg.pools[0].primary_reads_enabled = rng.chance(0.5);
+    cfg.pools[0].default_role = rng.pick(&["any", "any", "primary", "replica"]).to_string();
+    cfg.pools[0].lb = rng.pick(&["random", "loc"]).to_string();
+    let outage: &str = if idx % 4 == 3 { *rng.pick(&["replicas_down", "primary_down"]) } else { "none" };
+    let mut plan = serde_json::Map::new();
+    let mut clients = Vec::new();
+    for id in 1..=nclients {
+        let mut p = Prog::new(id);
+        let n = rng.range(5, if thorough { 26 } else { 14 });
+        for _ in 0..n {
+            p.new_txn();
+            let r = rng.below(100);
+            if r < 12 {
+                let role = *rng.pick(&["primary", "replica", "any", "auto", "default"]);
+                p.simple(format!("SET SERVER ROLE TO '{}'", role));
+            } else if r < 18 {
+                p.simple(format!("SET PRIMARY READS TO '{}'", rng.pick(&["on", "off", "default"])));
+            } else if r < 30 {
+                // explicit transaction
+                let t = p.tag();
+                plan.insert(t.clone(), serde_json::json!({"class": "txn_start"}));
+                p.simple(format!("{} /* {} */", rng.pick(&["BEGIN", "START TRANSACTION", "BEGIN ISOLATION LEVEL REPEATABLE READ", "begin read only"]), t));
+                for _ in 0..rng.range(1, 3) {
+                    let t = p.tag();
+                    let (class, sql) = classed_statement(rng, &t);
+                    plan.insert(t.clone(), serde_json::json!({"class": class, "in_txn": true}));
+                    p.simple(sql);
+                }
+                let t = p.tag();
+                plan.insert(t.clone(), serde_json::json!({"class": "txn_end", "in_txn": true}));
+                p.simple(format!("{} /* {} */", rng.pick(&["COMMIT", "ROLLBACK", "END"]), t));
+            } else if r < 80 {
+                let t = p.tag();
+                let (class, sql) = classed_statement(rng, &t);
+                plan.insert(t.clone(), serde_json::json!({"class": class}));
+                p.simple(sql);
+            } else {
+                // extended protocol, anonymous statement (single statement classes only)
+                let t = p.tag();
+                let (mut class, mut sql) = classed_statement(rng, &t);
+                while class.starts_with("multi") {
+                    let x = classed_statement(rng, &t);
+                    class = x.0;
+                    sql = x.1;
+                }
+                let mut msgs = Vec::new();
+                let shape = rng.below(4);
+                if shape == 1 {
+                    // drivers piggyback the Close of an evicted statement on the next query
+                    msgs.push(FrontMsg::C { kind: "S".into(), name: format!("evicted_{}", rng.range(0, 9)) });
+                }
+                if shape == 2 {
+                    // pipelined: a plain read first, then the statement proper, one Sync
+                    let t0 = p.tag();
+                    plan.insert(t0.clone(), serde_json::json!({"class": if class == "plain_read" { "plain_read" } else { "pipelined_read_then_other" }, "extended": true}));
+                    msgs.push(FrontMsg::P { name: String::new(), sql: format!("SELECT '{}'", t0), types: vec![] });
+                    msgs.push(FrontMsg::B { portal: String::new(), stmt: String::new(), fmt: vec![], params: vec![], rfmt: vec![], binary_hex: false });
+                    msgs.push(FrontMsg::E { portal: String::new(), max: 0 });
+                }
+                plan.insert(t.clone(), serde_json::json!({"class": class, "extended": true}));
+                msgs.push(FrontMsg::P { name: String::new(), sql, types: vec![] });
+                msgs.push(FrontMsg::B { portal: String::new(), stmt: String::new(), fmt: vec![], params: vec![], rfmt: vec![], binary_hex: false });
+                msgs.push(FrontMsg::E { portal: String::new(), max: 0 });
+                msgs.push(FrontMsg::S);
+                // tags in message order: the oracle reads the class of the first one
+                p.send(msgs);
+            }
+            if rng.chance(0.2) {
+                p.think(rng.range(0, 25));
+            }
+        }
+        p.steps.push(Step::Terminate);
+        let mut c = client(id, "app", "db", "apppw", rng.range(0, 30), p.steps);
+        c.patience_ms = 30_000;
+        if outage != "none" {
+            c.start = When::After { ev: "outage".into(), delay_ms: rng.range(1, 20) };
+        }
+        clients.push(c);
+    }
+    let hosts = cfg.hosts();
+    let mut actions = Vec::new();
+    if outage != "none" {
+        for h in hosts.iter().filter(|h| (outage == "replicas_down") == (h.role == "replica")) {
+            actions.push(ActionSpec { at: When::AtMs { ms: 40 }, act: Action::HostMode { host: h.addr.clone(), mode: "refuse".into() } });
+            actions.push(ActionSpec { at: When::AtMs { ms: 40 }, act: Action::KillConns { host: h.addr.clone(), how: "rst".into() } });
+        }
+        actions.push(ActionSpec { at: When::AtMs { ms: 41 }, act: Action::Emit { ev: "outage".into() } });
+    }
+    let net = if rng.chance(0.5) { net_calm() } else { net_swarm(rng) };
+    let mut spec = Spec { config_toml: cfg.render(), hosts, net, clients, actions, end: EndSpec { deadline_ms: 900_000, calm_ms: 20 }, ..Default::default() };
+    spec.params = params_from(&cfg);
+    spec.params.insert("default_role".into(), serde_json::json!(cfg.pools[0].default_role));
+    spec.params.insert("primary_reads_enabled".into(), serde_json::json!(cfg.pools[0].primary_reads_enabled));
+    spec.params.insert("query_parser_enabled".into(), serde_json::json!(cfg.pools[0].query_parser_enabled));
+    spec.params.insert("outage".into(), serde_json::json!(outage));
+    spec.params.insert("rw_split".into(), serde_json::json!(cfg.pools[0].rw_split));
+    spec.params.insert("c05_plan".into(), serde_json::Value::Object(plan));
+    spec.family = format!("roles/{}{}", if cfg.pools[0].query_parser_enabled { "parser_on" } else { "parser_off" }, if outage != "none" { format!("/{}", outage) } else { String::new() });
+    spec.oracles = vec!["c05_roles".into(), "liveness".into()];
+    spec
+}
